@@ -40,6 +40,7 @@ func main() {
 		solver := fs.String("solver", "z3", "solver binary")
 		noReplay := fs.Bool("no-replay", false, "skip native replay")
 		verbose := fs.Bool("v", false, "verbose")
+		cross := fs.Bool("cross", false, "large cross-solver sample (default in the thorough tier)")
 		fs.Parse(os.Args[3:])
 		if *tier == "" {
 			*tier = os.Getenv("VERIF_TIER")
@@ -66,7 +67,7 @@ func main() {
 				seed = v
 			}
 		}
-		o := &checkOpts{property: prop, tier: *tier, pkg: strings.ToLower(prop), only: *only, workers: *workers, budget: *budget, fuel: *fuel, seed: seed, solver: *solver, noReplay: *noReplay, verbose: *verbose}
+		o := &checkOpts{property: prop, tier: *tier, pkg: strings.ToLower(prop), only: *only, workers: *workers, budget: *budget, fuel: *fuel, seed: seed, solver: *solver, noReplay: *noReplay, verbose: *verbose, cross: *cross}
 		os.Exit(runCheck(o))
 	case "replay":
 		if len(os.Args) < 3 {
